@@ -60,6 +60,7 @@ REQUIRED = [
     "datagram_cases",
     "api:tls.send_all",
     "datagram_send_crossing_high_water_itself",
+    "datagram_listener_send_to_cases",
 ]
 WATCHDOG = {"quick": 1200, "thorough": 7200}
 
@@ -282,10 +283,34 @@ def datagram_scenario(ctx, rng: random.Random) -> str | None:
         a.bind((netutil.rand_loopback(), 0))
         b = socket.socket(socket.AF_INET, socket.SOCK_DGRAM)
         b.bind((netutil.rand_loopback(), 0))
-        a.connect(b.getsockname())
         a.setblocking(False)
-        ep = await create_datagram_endpoint(sock=a)
-        proto = getattr(ep, "_DatagramEndpoint__protocol")
+        target = rng.choice(["endpoint", "listener"])
+        out["target"] = target
+        if target == "endpoint":
+            a.connect(b.getsockname())
+            ep = await create_datagram_endpoint(sock=a)
+            proto = getattr(ep, "_DatagramEndpoint__protocol")
+            tr_attr = "_DatagramEndpoint__transport"
+        else:
+            # the server-side send path: DatagramListenerSocketAdapter.send_to() (AsyncDatagramServer.send_packet_to, UDP server handlers)
+            from easynetwork.lowlevel.api_async.backend._asyncio.backend import AsyncIOBackend as _B
+            from easynetwork.lowlevel.api_async.backend._asyncio.datagram.listener import DatagramListenerProtocol, DatagramListenerSocketAdapter
+
+            dtr, proto = await loop.create_datagram_endpoint(lambda: DatagramListenerProtocol(loop=loop), sock=a)
+            adapter = DatagramListenerSocketAdapter(_B(), dtr, proto)
+            dest = b.getsockname()
+            tr_attr = "_DatagramListenerSocketAdapter__transport"
+
+            class _Ep:
+                async def sendto(self_inner, data, addr):
+                    await adapter.send_to(data, dest)
+
+                def close_nowait(self_inner):
+                    dtr.abort()
+
+            setattr(_Ep, tr_attr, None)
+            ep = _Ep()
+            ctx.count("datagram_listener_send_to_cases")
         mode = rng.choice(["resume", "lost-exc", "lost-none", "cancel-one"])
         out["mode"] = mode
         self_pause = rng.random() < 0.5
@@ -293,7 +318,8 @@ def datagram_scenario(ctx, rng: random.Random) -> str | None:
         if self_pause:
             # the send itself is what crosses the high-water mark: the OS refuses the datagram, asyncio queues it and calls
             # pause_writing() from inside transport.sendto() (scripted here through a proxy of the asyncio transport)
-            real_tr = getattr(ep, "_DatagramEndpoint__transport")
+            holder = ep if target == "endpoint" else adapter
+            real_tr = getattr(holder, tr_attr)
 
             class _RefusingTransport:
                 def __init__(self) -> None:
@@ -307,7 +333,7 @@ def datagram_scenario(ctx, rng: random.Random) -> str | None:
                 def __getattr__(self, name):
                     return getattr(real_tr, name)
 
-            setattr(ep, "_DatagramEndpoint__transport", _RefusingTransport())
+            setattr(holder, tr_attr, _RefusingTransport())
             ctx.count("datagram_send_crossing_high_water_itself")
         else:
             proto.pause_writing()
